@@ -103,8 +103,11 @@ def writes_only_under(f, fname, what):
             for x in S[1]:
                 visit_S(x, under)
         elif k == "alt":
+            # a decision that tests the construct at all: each of its branches is chosen by the construct (the rule accepts either
+            # polarity - `if from.is_empty() {..; return}` as well as a match whose first arm has the guard and whose `_` arm is the rest)
+            any_m = any(what in (g.get("text") or "") for g, _ in S[1])
             for g, x in S[1]:
-                visit_S(x, under or what in (g.get("text") or ""))
+                visit_S(x, under or any_m)
         elif k in ("loop", "star", "star1"):
             info = S[2] if len(S) > 2 and isinstance(S[2], dict) else {}
             visit_S(S[1], under or what in (info.get("over") or ""))
